@@ -131,6 +131,8 @@ func main() {
 	switch os.Args[1] {
 	case "verify":
 		os.Exit(cmdVerify(os.Args[2:]))
+	case "check":
+		os.Exit(cmdCheck(os.Args[2:]))
 	default:
 		fmt.Fprintln(os.Stderr, "unknown command")
 		os.Exit(2)
